@@ -48,7 +48,20 @@ def Dict.set (d : Dict) (k : Bytes) (v : List Nat) : Dict :=
 def lookupLast (env : List (String × Nat)) (k : String) : Option Nat := env.reverse.lookup k
 
 /-- `map(int, toks)` on plain decimal tokens (`none` = ValueError) -/
-def ints (toks : List Bytes) : Option (List Nat) := toks.mapM parseDec?
+def ints : List Bytes → Option (List Nat)
+  | [] => some []
+  | t :: r =>
+    match parseDec? t, ints r with
+    | some n, some ns => some (n :: ns)
+    | _, _ => none
+
+/-- the values of the named local variables (`none` = one of them is unbound) -/
+def lookups (env : List (String × Nat)) : List String → Option (List Nat)
+  | [] => some []
+  | k :: r =>
+    match lookupLast env k, lookups env r with
+    | some v, some vs => some (v :: vs)
+    | _, _ => none
 
 /-! ### `_pslinux.net_io_counters` -/
 
@@ -71,7 +84,7 @@ def netLine (cfg : NetCfg) (line : Bytes) : Res (Bytes × List Nat) :=
     | none => .err .valueError
     | some vs =>
       if vs.length ≠ cfg.unpack.length then .err .valueError
-      else match cfg.output.mapM (lookupLast (cfg.unpack.zip vs)) with
+      else match lookups (cfg.unpack.zip vs) cfg.output with
         | none => .err .nameError
         | some t => .ok (name, t)
 
@@ -129,11 +142,28 @@ def sliceOf (fields : List Bytes) (lo : Nat) : Option Nat → List Bytes
   | none => fields.drop lo
   | some hi => (fields.drop lo).take (hi - lo)
 
-/-- one iteration of `read_procfs` followed by the body of the `for entry in gen` loop up to
-    (not including) the partition filter: the name and the tuple that would be stored -/
-def diskLine (cfg : DiskCfg) (line : Bytes) : Res (Bytes × List Nat) :=
-  let fields := splitP isWsT line
-  match cfg.branches.find? (fun b => guardHolds b.guard fields.length) with
+def branchFor (cfg : DiskCfg) (flen : Nat) : Option Branch :=
+  cfg.branches.find? fun b => guardHolds b.guard flen
+
+/-- from the unpacked integers to the stored tuple: the locals of the branch, the yielded
+    tuple, `(name, …) = entry`, `rbytes *= DISK_SECTOR_SIZE; wbytes *= …`, the tuple stored -/
+def diskValues (cfg : DiskCfg) (b : Branch) (e1 : List (String × Nat)) (vs : List Nat) : Res (List Nat) :=
+  if vs.length ≠ b.unpack.length then .err .valueError
+  else
+    let env := e1 ++ b.unpack.zip vs ++ b.zeros.map (fun n => (n, 0))
+    match lookups env cfg.yieldNames with
+    | none => .err .nameError
+    | some entry =>
+      if entry.length ≠ cfg.entryNames.length then .err .valueError
+      else
+        let env2 := (cfg.entryNames.zip entry).map fun kv =>
+          if cfg.scaled.contains kv.1 then (kv.1, kv.2 * cfg.sector) else kv
+        match lookups env2 cfg.retNames with
+        | none => .err .nameError
+        | some t => .ok t
+
+def diskFields (cfg : DiskCfg) (fields : List Bytes) : Res (Bytes × List Nat) :=
+  match branchFor cfg fields.length with
   | none => .err .valueError
   | some b =>
     match fields[b.nameIdx]? with
@@ -142,20 +172,12 @@ def diskLine (cfg : DiskCfg) (line : Bytes) : Res (Bytes × List Nat) :=
       (singlesEnv fields b.singles).bind fun e1 =>
       match ints (sliceOf fields b.lo b.hi) with
       | none => .err .valueError
-      | some vs =>
-        if vs.length ≠ b.unpack.length then .err .valueError
-        else
-          let env := e1 ++ b.unpack.zip vs ++ b.zeros.map (fun n => (n, 0))
-          match cfg.yieldNames.mapM (lookupLast env) with
-          | none => .err .nameError
-          | some entry =>
-            if entry.length ≠ cfg.entryNames.length then .err .valueError
-            else
-              let env2 := (cfg.entryNames.zip entry).map fun kv =>
-                if cfg.scaled.contains kv.1 then (kv.1, kv.2 * cfg.sector) else kv
-              match cfg.retNames.mapM (lookupLast env2) with
-              | none => .err .nameError
-              | some t => .ok (name, t)
+      | some vs => (diskValues cfg b e1 vs).bind fun t => .ok (name, t)
+
+/-- one iteration of `read_procfs` followed by the body of the `for entry in gen` loop up to
+    (not including) the partition filter: the name and the tuple that would be stored -/
+def diskLine (cfg : DiskCfg) (line : Bytes) : Res (Bytes × List Nat) :=
+  diskFields cfg (splitP isWsT line)
 
 /-- `is_storage_device(name)`: `os.access("/sys/block/" + name.replace('/', '!'), F_OK)`;
     `sysBlock` = the entries of `/sys/block` -/
